@@ -236,7 +236,9 @@ def handlePinn (j : Json) : Except String Json := do
   let model := refPinn cm.eqT net cm.inT cm.outT cm.eq
   let (outs, commons, ok) := runCalls cm calls model
   let bareAllowed := !cm.inT.needsEq && !cm.outT.needsEq
-  let holds := if mCreate.isSome then none else holdsWrapper cm.eqT bareAllowed cm.slices model calls
+  let holds := match checkCreate mCreate obsCreate with
+    | some c => some c
+    | none => if mCreate.isSome then none else holdsWrapper cm.eqT bareAllowed cm.slices model calls
   let guards := calls.map (fun c =>
     match callInputs cm.eqT c.args with
     | .ok inputs =>
@@ -304,7 +306,9 @@ def handleHyper (j : Json) : Except String Json := do
   let (outs, commons, ok) := runCalls cm calls
     (modelHyper cm.eqT hyperparams hyperNet innerSpec cm.inT cm.outT cm.eq)
   if !ok && diff == "" then diff := "call-output"
-  let holds := if mCreate.isSome then none else holdsWrapper cm.eqT false cm.slices model calls
+  let holds := match checkCreate mCreate obsCreate with
+    | some c => some c
+    | none => if mCreate.isSome then none else holdsWrapper cm.eqT false cm.slices model calls
   -- exactness guard: hyper-network pass, then the inner network with the produced weights
   let guards := calls.map (fun c =>
     match callInputs cm.eqT c.args, hyperInput cm.eq hyperparams with
@@ -347,7 +351,8 @@ def handleSpinn (j : Json) : Except String Json := do
     | .ok _ => none
   if mCreate.isSome || obsCreate.isSome then
     return Json.mkObj [("model_create_error", jOptStr mCreate), ("model_outs", .arr #[]),
-      ("agree", Json.bool (mCreate == obsCreate)), ("holds", Json.bool true), ("clause", Json.null),
+      ("agree", Json.bool (mCreate == obsCreate)), ("holds", Json.bool (checkCreate mCreate obsCreate).isNone),
+      ("clause", jOptStr (checkCreate mCreate obsCreate)),
       ("exact_ok", Json.bool true), ("diff", .str (if mCreate == obsCreate then "" else "create-error"))]
   let nets ← (← getArr j "nets").mapM (fun n => do (← n.getArr?).toList.mapM pLayer)
   let calls ← (← getArr j "calls").mapM pSpinnCall
